@@ -103,14 +103,14 @@ func MergeAll(repo repository.ClockedRepo, remote string) <-chan entity.MergeRes
 
 			if err != nil {
 				out <- entity.NewMergeError(errors.Wrap(err, "local identity is not readable"), id)
-				return
+				continue
 			}
 
 			updated, err := localIdentity.Merge(repo, remoteIdentity)
 
 			if err != nil {
 				out <- entity.NewMergeInvalidStatus(id, errors.Wrap(err, "merge failed").Error())
-				return
+				continue
 			}
 
 			if updated {
